@@ -196,7 +196,7 @@ impl LangInterpreter for Dutch {
             "miljoen" | "miljoenste" if b.is_range_free(6, 8) => b.shift(6),
             "miljard" | "miljardste" => b.shift(9),
             "biljoen" | "biljoenste" => b.shift(12),
-            "en" | "ën" => Err(Error::Incomplete),
+            "en" | "ën" if b.is_empty() || !b.is_null() => Err(Error::Incomplete),
 
             _ => Err(Error::NaN),
         };
